@@ -260,6 +260,12 @@ func (eb *EventBuilder) Build(
 		return
 	}
 
+	// Nothing built here may be unacceptable to NewEventFromUntrustedJSON: the content and
+	// unsigned of the builder are raw JSON, so a member name can occur twice in them.
+	if err = checkUntrustedEventJSON(eventJSON); err != nil {
+		return nil, err
+	}
+
 	res, err := eb.version.NewEventFromTrustedJSON(eventJSON, false)
 	if err != nil {
 		return nil, err
